@@ -122,6 +122,7 @@ FIXED = {
  "fs:put-into-missing-bucket": "1d0f501", "fs:create-upload-not-validated": "1d0f501",
  "fs:stale-metadata-after-overwrite": "b01fec8", "fs:metadata-survives-delete": "b01fec8",
  "fs:head-missing-key-code": "d6f1a3c",
+ "fs:delete-nonempty-bucket": "dbc4627",
 }
 # repairs whose text says explicitly that it describes the code before the repair
 BEFORE = {"fs:head-missing-key-code"}
